@@ -8,6 +8,8 @@ RULE = ("schema family with handler attributes on random subsets of items (schem
 
 import zcvdt  # noqa: E402
 
+from ..sexp import Atom
+
 
 def unwrap(v):
     while isinstance(v, zcvdt.Wrapped):
@@ -162,6 +164,48 @@ def run(ctx):
             except Exception as e:
                 ctx.violate("duplicate handler names raised %s" % type(e).__name__, c.replay(), signature="C16:duplicate-raised")
             ctx.evaluations += 1
+        # the model of CompositeHandler.__call__ (lean/ZCV/Lemmas/HandlersCall.lean, theorems C16_call_*), driver op hcall:
+        # random maps - complete, incomplete, with None, with case variants and duplicates, with a name that is no basic key -
+        # same verdict (ok / not unique / undefined / ValueError) and the same sequence of callables called
+        if ctx.driver_ok:
+            entry_names = [e[0] for e in exp]
+            reqs, maps = [], []
+            for _ in range(4):
+                items = []
+                for n in names_needed:
+                    k = rng.random()
+                    if k < 0.12:
+                        continue
+                    items.append((cfggen._case_variant(rng, n) if rng.random() < 0.5 else n, None if rng.random() < 0.15 else len(items)))
+                    if rng.random() < 0.12:
+                        items.append((cfggen._upper(n) if rng.random() < 0.5 else n.capitalize(), len(items)))
+                if rng.random() < 0.1:
+                    items.append((rng.choice(["not a key", "9x", "", "extra-name"]), len(items)))
+                rng.shuffle(items)
+                seen, uniq = set(), []
+                for nm, k in items:          # a Python dict has distinct keys
+                    if nm not in seen:
+                        seen.add(nm)
+                        uniq.append((nm, k))
+                maps.append(uniq)
+                reqs.append([Atom("hcall"), entry_names, [[nm, Atom("none") if k is None else k] for nm, k in uniq]])
+            for uniq, ans in zip(maps, core.driver_batch(reqs)):
+                log = []
+                m = {nm: (None if k is None else (lambda v, k=k: log.append(k))) for nm, k in uniq}
+                try:
+                    h(m)
+                    got = ["ok", list(log)]
+                except ZConfig.ConfigurationError as e:
+                    got = ["err", "notunique" if "not unique" in str(e) else "undefined" if "undefined" in str(e) else "other", list(log)]
+                except ValueError:
+                    got = ["err", "badname", list(log)]
+                except Exception as e:
+                    got = ["exc", type(e).__name__, list(log)]
+                ctx.evaluations += 1
+                ctx.count("hcall:" + ":".join(str(x) for x in got[:2] if not isinstance(x, list)))
+                want = ["ok", [int(x) for x in ans[1]]] if ans[0] == "ok" else ["err", str(ans[1]), []]
+                if got != want:
+                    ctx.disagree("handler-call", {"entries": entry_names, "map": [[nm, k] for nm, k in uniq]}, got, [str(x) for x in ans])
     # the same through command-line overrides: a load with overrides must deliver exactly the handler entries (count,
     # order, values) that the hand-edited text delivers — sections addressed by an override included
     from . import c14
